@@ -184,14 +184,14 @@ Definition okf {A} (r : res A) : Prop := match r with Ok _ => True | Err OutOfFu
 
 (* how the state after hashtable_iter_next is obtained: an optional reference taken on the node found, then the
    release of the node the iterator was parked on *)
-Definition next_shape (s : hstate) (hi : hiter) (s' : hstate) : Prop :=
-  exists s1 Pmid,
+Definition next_shape (s : hstate) (hi : hiter) (P : list hiter) (hi' : hiter) (s' : hstate) : Prop :=
+  exists s1,
     (s1 = s \/ exists id n, In id (linked s) /\ deref (h_heap s) id = Ok n /\ s1 = set_heap s (store (h_heap s) id (bumpn n))) /\
-    GoodP s1 (hi :: Pmid) /\
+    GoodP s1 (hi :: hi' :: P) /\
     match hi_node hi with Some cur => exists ns, node_deref s1 cur = Ok (s', ns) | None => s' = s1 end.
 
 Lemma iter_next_safe : forall s P hi, GoodP s (hi :: P) ->
-  exists s' hi' r ns, h_iter_next v_fixed s hi = Ok (s', hi', r, ns) /\ GoodP s' (hi' :: P) /\ same_ctl s s' /\ next_shape s hi s'.
+  exists s' hi' r ns, h_iter_next v_fixed s hi = Ok (s', hi', r, ns) /\ GoodP s' (hi' :: P) /\ same_ctl s s' /\ next_shape s hi P hi' s'.
 Proof.
   intros s P hi G. unfold h_iter_next.
   set (b0 := hi_bucket hi).
@@ -229,18 +229,18 @@ Proof.
       assert (Hin2 : In id (bucket s2 b')) by (apply (p_iter _ _ U2 {| hi_node := Some id; hi_bucket := b' |} id); auto; left; auto).
       destruct (p_node _ _ U2 id (in_bucket_linked _ _ _ Hin2)) as [n2 [M1 _]]. rewrite M1. simpl.
       eexists _, _, _, _. split; [reflexivity|]. split; [auto|split; [exact U3|]].
-      exists (set_heap s (store (h_heap s) id (bumpn n))), ({| hi_node := Some id; hi_bucket := b' |} :: P). split; [right; exists id, n; split; [eapply in_bucket_linked; eauto|auto]|]. split; [exact G1|]. rewrite Hc. eauto.
+      exists (set_heap s (store (h_heap s) id (bumpn n))). split; [right; exists id, n; split; [eapply in_bucket_linked; eauto|auto]|]. split; [exact G1|]. rewrite Hc. eauto.
     + assert (G2 : GoodP (set_heap s (store (h_heap s) id (bumpn n))) ({| hi_node := Some id; hi_bucket := b' |} :: P)).
       { eapply goodp_none_del; eauto. }
       simpl. rewrite deref_store by (eapply deref_lt; eauto). rewrite Nat.eqb_refl. simpl.
       eexists _, _, _, _. split; [reflexivity|]. split; [auto|split; [repeat split|]].
-      exists (set_heap s (store (h_heap s) id (bumpn n))), ({| hi_node := Some id; hi_bucket := b' |} :: P). split; [right; exists id, n; split; [eapply in_bucket_linked; eauto|auto]|]. split; [exact G1|]. rewrite Hc. reflexivity.
+      exists (set_heap s (store (h_heap s) id (bumpn n))). split; [right; exists id, n; split; [eapply in_bucket_linked; eauto|auto]|]. split; [exact G1|]. rewrite Hc. reflexivity.
   - destruct (hi_node hi) as [cur|] eqn:Hc.
     + destruct (goodp_unpark _ _ hi cur G Hc) as [s2 [ns [U1 [U2 [U3 U4]]]]]. simpl. rewrite U1. simpl.
       eexists _, _, _, _. split; [reflexivity|]. split; [apply goodp_none_add; auto|split; [exact U3|]].
-      exists s, P. split; [left; auto|]. split; [exact G|]. rewrite Hc. eauto.
+      exists s. split; [left; auto|]. split; [eapply goodp_perm; [apply perm_swap|apply goodp_none_add; exact G]|]. rewrite Hc. eauto.
     + simpl. eexists _, _, _, _. split; [reflexivity|]. split; [apply goodp_none_add; eapply goodp_none_del; eauto|split; [repeat split|]].
-      exists s, P. split; [left; auto|]. split; [exact G|]. rewrite Hc. reflexivity.
+      exists s. split; [left; auto|]. split; [eapply goodp_perm; [apply perm_swap|apply goodp_none_add; exact G]|]. rewrite Hc. reflexivity.
 Qed.
 
 Lemma iter_free_safe : forall s P hi, GoodP s (hi :: P) ->
